@@ -369,6 +369,19 @@ def run_inc(case):
         CobaContext.logger = old
 
 
+def pyval(v):
+    """a parameter value / x label as the Lean model's `PyVal` (None when the class is not modelled: tuples, NaN, …)"""
+    if v is None:
+        return ["none"]
+    if isinstance(v, (bool, int)) or (isinstance(v, float) and v == v and v not in (INF, -INF)):
+        return ["num", q(Fraction(v))]
+    if isinstance(v, str):
+        return ["str", [ord(ch) for ch in v]]
+    if isinstance(v, frozenset) and all(isinstance(u, int) and not isinstance(u, bool) and u >= 0 for u in v):
+        return ["fset", sorted(v)]
+    return None
+
+
 def tofl(p):
     """[num,den] -> int or float (exact: generated values are small dyadics); "nan" / "inf" -> that float"""
     if isinstance(p, str):
@@ -1528,11 +1541,15 @@ class C18(Property):
             impl_out.append({"post": snap_json(rec["post"])} if "post" in rec else ({"table": json.loads(json.dumps(rec.get("table"), default=str))} if "table" in rec else {"err": rec["err"]}))
             # (A)
             undefined = op in ("raw_learners", "raw_contrast") and st["x"] == "index" and st.get("span") == 0
-            if op == "raw_contrast" and "contrast:mixed-x-labels" in tags[-3:]:
+            single_x = op == "raw_contrast" and not isinstance(st["x"], (list, tuple))
+            if op == "raw_contrast" and "contrast:mixed-x-labels" in tags[-3:] and not (single_x and rec.get("err") == "TypeError"):
                 undefined = True
             if op == "raw_contrast" and st["x"] != "index" and not all(coder.sortable(c) for c in aslist(st["x"])):
-                undefined = True        # x column of mixed types: which labels sorted() can compare is not modelled
-                tags.append("contrast:A-skipped-unsortable-x")
+                if single_x:
+                    tags.append("contrast:A-mixed-x-via-pysort")    # which labels sorted() can compare: model `pySorted`
+                else:
+                    undefined = True        # several x columns of mixed types: tuple labels, sorted() depends on the dict order
+                    tags.append("contrast:A-skipped-unsortable-x")
             f2_here = any(f["sig"] == F2_SIG for f in fails[nfails0:])   # the model groups by equality; (B) reports this step
             small = len(pre["int"][1]) <= MAX_MODEL_ROWS
             if yscale(pre, st.get("y", "reward")) != 1 and op in ("raw_learners", "raw_contrast", "where_best"):
@@ -1826,8 +1843,34 @@ class C18(Property):
             out.append([(xv, yv, (tuple(e) if isinstance(e, (list, tuple)) else (e, e))) for xv, yv, e in zip(ln["X"], ln["Y"], ye)])
         return out
 
+    @staticmethod
+    def prints_differ(st, pre):
+        """x values that are equal (one dict key: 1 == True == 1.0) but print differently: the str(x) labels of the win/tie/loss
+        branch then depend on which of them was inserted first (set order) — not compared"""
+        if st["x"] == "index":
+            return False
+        d = Direct(pre)
+        vals = []
+        for c in aslist(st["x"]):
+            for t in d.evals:
+                try:
+                    vals.append(d.cell(c, t))
+                except Exception:  # noqa
+                    pass
+        seen = {}
+        for v in vals:
+            try:
+                if seen.setdefault(v, str(v)) != str(v):
+                    return True
+            except TypeError:
+                pass
+        return False
+
     def check_plot(self, st, rec, fails, tags, coder):
         pl, pr = st["plot"], rec["plot"]
+        if self.prints_differ(st, rec["pre"]):
+            tags.append("plotc:skipped-equal-values-print-differently")
+            return
         call = "plot_contrast(%r,%r,x=%r,l=%r,p=%r,mode=%r,span=%r,err=%r,errevery=%r)" % (
             st["l1"], st["l2"], st["x"], st["l"], st["p"], pl["mode"], st.get("span"), pl.get("err"), pl.get("errevery"))
         tags.append("plotc:mode=%s" % pl["mode"])
@@ -1895,6 +1938,8 @@ class C18(Property):
         pl, pr = st["plot"], rec["plot"]
         if pl.get("err") not in (None, "range"):
             tags.append("plotc:A-skipped-sqrt-interval")
+            return
+        if self.prints_differ(st, rec["pre"]):
             return
         x = st["x"]
         kind = "index" if x == "index" else ("isL" if x == st["l"] else "other")
@@ -2054,6 +2099,11 @@ class C18(Property):
             return ans["model"]
         if op == "raw_contrast":
             l, x = st["l"], st["x"]
+            if self.prints_differ(st, pre):
+                # 1 == True == 1.0 are one value for the model (and one dict key for coba) but print differently inside the
+                # f"{x2}-{x1}" labels: which label comes out depends on the insertion order — not modelled
+                tags.append("contrast:A-skipped-equal-values-print-differently")
+                return None
             lcols = aslist(l)
             tbl_of = {}
             for tb, idc in (("env", "environment_id"), ("lrn", "learner_id"), ("val", "evaluator_id")):
@@ -2075,6 +2125,9 @@ class C18(Property):
             req = {"kind": "contrast", "res": res, "sels1": [sel(v) for v in labs1], "sels2": [sel(v) for v in labs2],
                    "p": col_refs(pre, st["p"]), "x": ("index" if x == "index" else col_refs(pre, x)), "span": st.get("span"),
                    "strx": bool(strx)}
+            mixedx = x != "index" and not isinstance(x, (list, tuple)) and not coder.sortable(x)
+            if mixedx:
+                req["strx"] = True          # the model's own label-next-to-value rule is replaced by `pySorted` on the actual labels
             ans = ask(driver, req)
             m = ans["model"]
             inv = {c: {code: val for val, code in list(coder.cols[c][0].items()) + list(coder.cols[c][1])} for c in coder.cols}
@@ -2088,6 +2141,29 @@ class C18(Property):
                     return x1[0]
                 a_, b_ = real(x, x1), real(x, x2)
                 return a_ if a_ == b_ else "%s-%s" % (b_, a_)
+            if x != "index" and not isinstance(x, (list, tuple)) and "ok" in m:
+                # goal 2: the final `sorted(XY.items())` — Python's outcome (TypeError / order of the x labels) vs. `pySorted`
+                labels = list(dict.fromkeys(lab_of(x1, x2) for x1, x2, _ in m["ok"]))
+                enc = [pyval(v) for v in labels]
+                if any(e is None for e in enc) or len(enc) >= 64:
+                    tags.append("pysort:skipped-unmodelled-value")
+                    if mixedx:
+                        return None
+                else:
+                    ps = ask(driver, {"kind": "pysort", "vals": enc})["model"]
+                    tags.append("pysort:%s%s" % ("TypeError" if "err" in ps else "ok", ":mixed-column" if mixedx else ""))
+                    if "err" in ps:
+                        if rec.get("err") != ps["err"]:
+                            fails.append(F("A", "raw_contrast(x=%r): sorted() over the x labels %r: implementation %s, model of sorted() raises %s"
+                                           % (x, labels, rec.get("err") or "returns a table", ps["err"]), "A:raw_contrast-sorted"))
+                        return m
+                    if rec.get("err") == "TypeError":
+                        fails.append(F("A", "raw_contrast(x=%r) raised TypeError; the model of sorted() orders the x labels %r without raising" % (x, labels), "A:raw_contrast-sorted"))
+                        return m
+                    if "table" in rec and not any(e[0] == "fset" for e in enc):
+                        got_x = [pyval(v) for v in rec["table"][1][0]]
+                        if got_x != ps["ok"]:
+                            fails.append(F("A", "raw_contrast(x=%r): x labels come out as %r, the model of sorted() gives %r" % (x, list(rec["table"][1][0]), ps["ok"]), "A:raw_contrast-sorted-order"))
             if st.get("plot") and "plot" in rec and (rec.get("err") == m.get("err")):
                 self.correspond_plot(st, rec, driver, coder, fails, tags, req, m, lab_of)
             if "err" in rec or "err" in m:
